@@ -101,10 +101,14 @@ Fixpoint erase_cells (row : list scell) (c n : nat) (f : face) : list scell :=
   | S n' => erase_cells (put row c (Blank, f)) (S c) n' f
   end.
 
+(* a wide character is written atomically: both cells it will occupy are freed first *)
+Definition put2 (row : list scell) (k : nat) (x y : scell) : list scell :=
+  upd (upd (unpair (unpair row k) (S k)) k x) (S k) y.
+
 Definition put_char (o : oracle) (row : list scell) (c : nat) (ch : N) (f : face) : list scell :=
   match cw o ch with
   | 1 => put row c (glyph_of ch, f)
-  | 2 => put (put row c (WL ch, f)) (S c) (WR, f)
+  | 2 => put2 row c (WL ch, f) (WR, f)
   | _ => row
   end.
 
